@@ -595,6 +595,7 @@ pub fn run_replay(path: &str, workers: usize) -> i32 {
                 println!("VIOLATION property={} replay={}", v.property, path);
                 println!("  oracle={} class={}{}", v.oracle, v.class, if v.class == want_class { " (same class as recorded)" } else { "" });
                 println!("  {}", v.detail.chars().take(2000).collect::<String>());
+                println!("  facts={}", v.facts);
             }
             println!("REPLAY log_hash={:016x} steps={}", r.log_hash, r.steps);
             1
